@@ -63,7 +63,9 @@ func Classify(c *sut.Client, what string, err error) error {
 		return fmt.Errorf("server process died during %s: %s", what, pt.CrashDetail(c))
 	}
 	if errors.Is(err, sut.ErrTimeout) {
-		return fmt.Errorf("%s did not return (hang): %s", what, pt.CrashDetail(c))
+		// A time budget hit is never a violation for the data properties (C17 owns termination):
+		// under machine load a healthy worker can miss the per-command deadline.
+		return pt.Inconclusivef("%s did not return within the per-command time budget", what)
 	}
 	return fmt.Errorf("%s: %v", what, err)
 }
